@@ -30,8 +30,7 @@ pub struct Event {
     pub op: Op,
     /// address of the lock / atomic (identity within one execution)
     pub obj: usize,
-    /// where the lock was constructed (`static ref` line for lazy statics, field initialiser otherwise);
-    /// atomics carry no site
+    /// where the lock / atomic was constructed (`static ref` line for lazy statics, field initialiser otherwise)
     pub site: Option<&'static Location<'static>>,
 }
 
@@ -353,18 +352,26 @@ impl<T> From<T> for RwLock<T> {
 // ------------------------------------------------------------------------------------- atomics
 pub mod atomic {
     use super::{before, Event, Op};
-    pub use std::sync::atomic::Ordering;
     use std::fmt;
+    use std::panic::Location;
+    pub use std::sync::atomic::Ordering;
 
     macro_rules! atomic_int {
         ($name:ident, $std:ty, $int:ty) => {
-            #[derive(Default)]
             pub struct $name {
+                site: &'static Location<'static>,
                 inner: $std,
             }
+            impl Default for $name {
+                #[track_caller]
+                fn default() -> Self {
+                    Self::new(0)
+                }
+            }
             impl $name {
+                #[track_caller]
                 pub const fn new(v: $int) -> Self {
-                    Self { inner: <$std>::new(v) }
+                    Self { site: Location::caller(), inner: <$std>::new(v) }
                 }
                 #[inline]
                 fn id(&self) -> usize {
@@ -372,10 +379,10 @@ pub mod atomic {
                 }
                 #[inline]
                 fn around<R>(&self, op: Op, f: impl FnOnce() -> R) -> R {
-                    let h = before(op, self.id(), None);
+                    let h = before(op, self.id(), Some(self.site));
                     let r = f();
                     if let Some(h) = h {
-                        h.after(&Event { op, obj: self.id(), site: None }, true);
+                        h.after(&Event { op, obj: self.id(), site: Some(self.site) }, true);
                     }
                     r
                 }
@@ -429,6 +436,7 @@ pub mod atomic {
                 }
             }
             impl From<$int> for $name {
+                #[track_caller]
                 fn from(v: $int) -> Self {
                     Self::new(v)
                 }
